@@ -143,12 +143,20 @@ def clause_markers(text):
     return out
 
 
-def nearest_marker(markers, line, col):
+def nearest_marker(markers, line, col, lines=None):
+    """the clause marker this span belongs to: the closest one before it, provided no other item starts in between"""
     best = None
     for (ml, mc, mid, tags) in markers:
         if (ml, mc) <= (line, col):
             if best is None or (ml, mc) > (best[0], best[1]):
                 best = (ml, mc, mid, tags)
+    if best is not None and lines is not None:
+        if line - best[0] > 25:
+            return None
+        for l in lines[best[0]:line - 1]:
+            s = l.strip()
+            if re.match(r'(pub\s+)?(open\s+|closed\s+)?(proof\s+|spec\s+|exec\s+)?fn\s', s) or s.startswith('impl') or s.startswith('// ---- extracted'):
+                return None
     return best
 
 
@@ -171,6 +179,7 @@ class UnitRun:
         self.tok = {}
         for (gl, gc, fi, sl, sc) in self.map['tokens']:
             self.tok.setdefault(gl + self.off, []).append((gc, sl, sc))
+        self.inj_proof = set(e['g'] + self.off for e in self.map['lines'] if e.get('inj') == 'proof')
         # header region of each function = from its "// ---- extracted" line to the body start
         self.hdr = {}
         for i, l in enumerate(self.lines):
@@ -245,13 +254,15 @@ def analyse(ur, diags, res):
             if f:
                 break
         clause, tags = None, []
+        if kind == 'pre' and body_span is not None and body_span['line_start'] in ur.inj_proof:
+            kind = 'assert'   # a lemma call inside an injected proof block: part of the function's own proof
         if clause_span is not None and kind in ('post', 'inv', 'pre'):
-            m = nearest_marker(ur.markers, clause_span['line_start'], clause_span['column_start'])
+            m = nearest_marker(ur.markers, clause_span['line_start'], clause_span['column_start'], ur.lines)
             cf = ur.fn_at(clause_span['line_start'])
             if m and (cf is None or f is None or cf['id'] == f['id'] or kind == 'pre'):
                 clause, tags = m[2], list(m[3])
         if kind in ('inv',) and clause is None and body_span is not None:
-            m = nearest_marker(ur.markers, body_span['line_start'], body_span['column_start'])
+            m = nearest_marker(ur.markers, body_span['line_start'], body_span['column_start'], ur.lines)
             if m:
                 clause, tags = m[2], list(m[3])
         if kind in ('assert',) and body_span is not None and f is not None:
@@ -267,8 +278,9 @@ def analyse(ur, diags, res):
                 extra = set((f.get('safety_tags') or '').split(',')) - {''} if f else set()
                 tags = sorted(set(tags) | {'C08'} | extra)
                 clause = clause or ((f['id'] if f else ur.unit) + '.' + kind)
-        if f is None and not tags:
-            # a failure outside every extracted function: a hand-written lemma of the unit
+        if f is None:
+            # a failure outside every extracted function: a hand-written lemma of the unit. It depends on the contracts
+            # only, never on /repo, so it cannot be a violation of the code: undecided.
             undecided.append('proof failure outside extracted code: ' + msg + ' :: ' + (d.get('rendered') or '')[:400])
             continue
         repo_line = None
